@@ -626,6 +626,11 @@ class TypeEnv:
                 return TList(self._p(args[0]), "deque")
             if head in ("Dict", "dict", "Map"):
                 return TMap(self._p(args[0]), self._p(args[1]))
+            if head == "DefaultDict":
+                # collections.defaultdict(float|int): a dict whose missing keys read as 0 (and are inserted by the read)
+                t = TMap(self._p(args[0]), self._p(args[1]))
+                t.default_zero = True
+                return t
             if head in ("OrderedDict", "OMap"):
                 return TMap(self._p(args[0]), self._p(args[1]), ordered=True)
             if head in ("Set", "set"):
